@@ -890,6 +890,26 @@ F2_WITNESSES = [
      "kwargs": {"ord": float("inf")}, "track": "both"},
     {"cat": "norm", "name": "norm", "route": "func", "operands": [od("tensor", "f64", (2, 3), fill=0.5)], "args": [],
      "kwargs": {"ord": float("-inf"), "axis": 1}, "track": "both"},
+] + [
+    # `t ** e` with an exponent of ONE element in 1..3 dimensions and the values Tensor.__pow__ looks for: the
+    # exponent's shape and dtype take part in the result (it is not a 0-d exponent)
+    {"cat": "ufunc", "name": "power", "route": "op", "operands": [od("tensor", bdt, bshape, fill=3), od(ekind, edt, eshape, fill=ev)],
+     "kwargs": {}, "track": "both"}
+    for bdt, bshape in (("f64", ()), ("f64", (3,)), ("f32", (3,)), ("i32", (2, 3)))
+    for ekind, edt in (("array", "f64"), ("array", "i64"), ("tensor", "f64"), ("list", "f64"))
+    for eshape in ((1,), (1, 1))
+    for ev in (1, 2)
+] + [
+    # option combinations pinned (each option's code path must honour the others)
+    {"cat": "ufunc", "name": nm, "route": rt, "operands": [od("tensor", "f64", (2, 3), fill=0.3), od("tensor", "f64", (3,), fill=0.1)],
+     "kwargs": kw, "track": "both"}
+    for nm in ("add", "multiply", "divide")
+    for rt in ("func", "np")
+    for kw in ({"where": od("array", "bool", (2, 3)), "dtype": "f32"},
+               {"where": od("array", "bool", (3,)), "dtype": "f32", "out": od("array", "f64", (2, 3), fill=0)},
+               {"dtype": "f32", "out": od("tensor", "f64", (2, 3), const=True, fill=0)},
+               {"dtype": "f16", "out": od("tensor", "f64", (2, 3), fill=0)},
+               {"where": od("tensor", "bool", (2, 3)), "out": od("tensor", "f64", (2, 3), fill=0)})
 ]
 
 
